@@ -40,3 +40,21 @@ Check (C15_meta_types_refuted :
     /\ get_type Sj (s "__Schema") <> None
     /\ get_type (ast_to_type_system D) (s "__Schema") = None).
 Print Assumptions C15_meta_types_refuted.
+Check (C15_printer_schema_on_json_route : forall sc,
+  keys_match sc ->
+  let sc' := ast_to_type_system (type_system_to_ast sc) in
+  option_map nval (sc_desc sc') = option_map nval (sc_desc sc)
+  /\ (forall op, option_map nval (declared_root (nval (sc_roots sc')) op) = option_map nval (declared_root (nval (sc_roots sc)) op))
+  /\ (forall n, option_map norm_typedef (get_type sc' n) = option_map (fun d => norm_typedef (strip_typedef d)) (get_type sc n))
+  /\ (forall n, get_directive sc' n = None)).
+Print Assumptions C15_printer_schema_on_json_route.
+Check (C15_front_ends_keys_match :
+  (forall j sc, json_route j = Ok sc -> keys_match sc) /\ (forall D, keys_match (ast_to_type_system D))).
+Print Assumptions C15_front_ends_keys_match.
+Check (C15_printers_see_same_types : forall st meta M D,
+  model_ok M = true -> doc_equiv D (sdl_doc M) -> parsed_positions D ->
+  exists Sj, json_route (introspect st meta M) = Ok Sj /\
+    forall n, vis_of M n = true ->
+      option_map norm_typedef (get_type (ast_to_type_system (type_system_to_ast Sj)) n)
+      = option_map (fun d => strip_typedef (norm_typedef d)) (get_type (ast_to_type_system D) n)).
+Print Assumptions C15_printers_see_same_types.
